@@ -518,6 +518,7 @@ MODULES['C20'] += ['C20Gen']; AUDITS['C20'] += ['C20Gen']   # get_pattern_contex
 MODULES['C12'] += ['C12GenAttr']; AUDITS['C12'] += ['C12GenAttr']   # match_attribute_name translated from the source (gen/gen_py_attrname.py)
 MODULES['C02'] += ['C02Gen']; AUDITS['C02'] += ['C02Gen']   # the An+B block of parse_pseudo_nth translated from the source (gen/gen_py_anb.py)
 MODULES['C03'] += ['C03Gen']; AUDITS['C03'] += ['C03Gen']   # query entry points translated from the source (gen/gen_py_api.py)
+MODULES['C19'] += ['C19Gen', 'C19GenRoot']; AUDITS['C19'] += ['C19Gen', 'C19GenRoot']   # match_empty / match_contains / match_root translated from the source (gen/gen_py_textfn.py)
 # `CxxRx` modules restate the property theorems about the regular expressions REGENERATED from the source
 # (the hand-written scanners are proved equal to the regex-engine model on them in lean/SoupVerif/Refine/).
 
